@@ -13,6 +13,8 @@ def filt(entries, S, exclude):
         if keep: out.append((k, v))
     return out
 
+ERRS = [0, 0]    # vacuity guard: how often the edited file itself does not tabulate (then only 'both fail' is compared)
+
 def check_case(rep, case, name):
     rng = random.Random(case['seed'])
     kind = case['kind']
@@ -27,6 +29,7 @@ def check_case(rep, case, name):
     edited = render(head, sections(lambda e: filt(e, S, excl)))
     try: want = tabulate_text(edited)
     except Exception as e: want = 'ERR:' + type(e).__name__
+    ERRS[0] += want.startswith('ERR'); ERRS[1] += 1
     # API route
     other = None
     try:
@@ -47,7 +50,7 @@ def check_case(rep, case, name):
     # CLI route
     if S:
         code, so, se, text = potable([('--exclude-species' if excl else '--include-species')] + S, full)
-        if (text or 'ERR') != (want if not want.startswith('ERR') else 'ERR') and not (want.startswith('ERR') and code != 0):
+        if (text if text is not None else 'ERR') != (want if not want.startswith('ERR') else 'ERR') and not (want.startswith('ERR') and code != 0):
             rep.dev(name, dict(case, route='cli'), 'potable output differs from the edited file', 'equal'); return
     rep.ok()
 
@@ -72,4 +75,6 @@ if __name__ == '__main__':
         else: rep.ok()
         for i in range(pl.get('n', 40)):
             c = gen_case(rng); rep.case(c['kind'], c); check_case(rep, c, 'seeded-%d' % i)
-    rep.finish()
+    if pl.get('mode') != 'replay' and ERRS[0] * 2 > ERRS[1]:
+        rep.dev('oracle-vacuity', dict(kind='self-check'), '%d of %d edited files do not tabulate at all' % tuple(ERRS), 'a generator whose models tabulate')
+    rep.finish(edited_file_errors=ERRS[0])
